@@ -12,8 +12,8 @@
    overridden by exactly the options passed for that group; every written option must denote a leaf or a subgroup
    field of the selected configuration.  `no_abbrev tb argv root d fuel` = once the set-up is complete, every written
    option is a registered spelling or not a prefix of any registered spelling, i.e. the main parser reads nothing as
-   an abbreviation (`plain tb argv`, nothing written is a proper prefix of any spelling in tb, is sufficient).  `crash_free_dc false d` = no frozen-instance entry has, directly inside its dataclass, a
-   subgroup field that declares a default key. *)
+   an abbreviation (`plain tb argv`, nothing written is a proper prefix of any spelling in tb, is sufficient).
+   argparse's prefix matching on the main parser is set aside by the property, hence the `_partial` statements. *)
 From SPV Require Import Base.Str Model.Subgroups Model.SubgroupsSpec Gen.FactsSubgroups Proofs.SubgroupsProofs.
 
 (* ---------- C07_fuel: the `itertools.count()` loop terminates; measure = nesting depth of what is unresolved ---------- *)
@@ -48,7 +48,7 @@ Print Assumptions C07_key.
 (* unknown key => Exit 2; required key missing => Exit 2 (and every other command line the specification rejects) *)
 Theorem C07_key_rejected_partial : forall tb argv root d fuel,
   declared_dc d = true -> wf_dc d = true -> str_nodupb (map fst tb) = true -> depth_dc d <= fuel ->
-  crash_free_dc false d = true -> no_abbrev tb argv root d fuel = true ->
+  no_abbrev tb argv root d fuel = true ->
   spec d root (intents_of tb argv) = MustReject ->
   parse_gen fuel tb argv root d = Err (Exit 2).
 Proof. exact rejected_partial. Qed.
@@ -75,18 +75,11 @@ Theorem C07_namespace_refuted :
 Proof. exact namespace_refuted. Qed.
 Print Assumptions C07_namespace_refuted.
 
-(* ---------- the model meets the specification on every command line without abbreviations ... ---------- *)
-Theorem C07_meets_spec_or_crash : forall tb argv root d fuel,
-  declared_dc d = true -> wf_dc d = true -> str_nodupb (map fst tb) = true -> depth_dc d <= fuel ->
-  no_abbrev tb argv root d fuel = true ->
-  parse_gen fuel tb argv root d = Err (Raise "AssertionError") /\ crash_free_dc false d = false
-  \/ expect_allows (spec d root (intents_of tb argv)) (parse_gen fuel tb argv root d) = true.
-Proof. exact meets_spec_or_crash. Qed.
-Print Assumptions C07_meets_spec_or_crash.
-
+(* ---------- the model meets the specification on every declared tree and every command line the main parser reads
+   without abbreviations (argparse's prefix matching is set aside by the property) ---------- *)
 Theorem C07_meets_spec_partial : forall tb argv root d fuel,
   declared_dc d = true -> wf_dc d = true -> str_nodupb (map fst tb) = true -> depth_dc d <= fuel ->
-  crash_free_dc false d = true -> no_abbrev tb argv root d fuel = true ->
+  no_abbrev tb argv root d fuel = true ->
   expect_allows (spec d root (intents_of tb argv)) (parse_gen fuel tb argv root d) = true.
 Proof. exact meets_spec_partial. Qed.
 Print Assumptions C07_meets_spec_partial.
@@ -95,23 +88,15 @@ Theorem C07_plain_no_abbrev : forall tb argv root d fuel, plain tb argv = true -
 Proof. exact plain_no_abbrev. Qed.
 Print Assumptions C07_plain_no_abbrev.
 
-(* ... and on crash-free trees a parse ends with a value or with argparse's error, never with an exception *)
-Theorem C07_no_crash_partial : forall tb argv root d fuel,
+(* ... and a parse ends with a value or with argparse's error, never with an exception - on EVERY declared tree,
+   every table and every command line.  (Before the repair of DataclassWrapper this needed the side condition "no
+   frozen-instance entry has a defaulted subgroup field directly inside": the round's own assertion failed there;
+   the witness W_CRASH is now part of C07_nonvacuous and of corpus/C07.) *)
+Theorem C07_no_crash : forall tb argv root d fuel,
   declared_dc d = true -> wf_dc d = true -> str_nodupb (map fst tb) = true -> depth_dc d <= fuel ->
-  crash_free_dc false d = true ->
   (exists x, parse_gen fuel tb argv root d = Ok x) \/ parse_gen fuel tb argv root d = Err (Exit 2).
 Proof. exact no_crash. Qed.
-Print Assumptions C07_no_crash_partial.
-
-(* the excluded shape does crash: a frozen instance of a class whose subgroup field declares a default key *)
-Theorem C07_crash_refuted :
-  exists tb argv root d fuel,
-    declared_dc d = true /\ wf_dc d = true /\ str_nodupb (map fst tb) = true /\ depth_dc d <= fuel /\
-    no_abbrev tb argv root d fuel = true /\
-    parse_gen fuel tb argv root d = Err (Raise "AssertionError") /\
-    expect_allows (spec d root (intents_of tb argv)) (parse_gen fuel tb argv root d) = false.
-Proof. exact crash_refuted. Qed.
-Print Assumptions C07_crash_refuted.
+Print Assumptions C07_no_crash.
 
 (* ---------- C07_foreign_rejected: an option that no registered spelling starts with is refused, for every resolved
    tree and every table - in particular the options that exist only in an unchosen alternative, since the model
@@ -123,15 +108,16 @@ Theorem C07_foreign_rejected : forall tb argv root r o v,
 Proof. exact foreign_rejected. Qed.
 Print Assumptions C07_foreign_rejected.
 
-(* "not registered" alone is not enough: `--lr` exists only in the unchosen Sgd, the chosen Adam registers `--lrd`,
-   and the main parser (allow_abbrev left at argparse's default) reads `--lr 5` as `--lrd 5` *)
-Theorem C07_foreign_exact_refuted :
+(* why the hypothesis speaks of prefixes and not only of "not registered": `--lr` exists only in the unchosen Sgd, the
+   chosen Adam registers `--lrd`, and the main parser reads `--lr 5` as `--lrd 5` - argparse's documented prefix
+   matching, which the property sets aside (not a defect; the specification is silent about such command lines) *)
+Theorem C07_foreign_prefix_witness :
   exists tb argv root d fuel r o v q x,
     declared_dc d = true /\ wf_dc d = true /\ str_nodupb (map fst tb) = true /\ depth_dc d <= fuel /\
     resolve_gen fuel tb argv root d = Ok r /\ In (o, v) argv /\ exact tb o = Some q /\ ~ In q (registered root r) /\
     final_gen tb argv root r = Ok x.
 Proof. exact foreign_exact_refuted. Qed.
-Print Assumptions C07_foreign_exact_refuted.
+Print Assumptions C07_foreign_prefix_witness.
 
 (* ---------- Union[A, B] fields: sub-command names as keys.  PARTIAL: how argparse cuts the command line at the
    sub-command token (everything after it goes to the member's own parser) is an input of the model here and is
@@ -193,7 +179,7 @@ Definition NV_ARGV : list tok :=
   [("--model", "small"); ("--opt", "adam"); ("--model", "big"); ("--beta", "3"); ("--model.lr", "4")].
 
 Example C07_nonvacuous :
-  declared_dc NV_TREE = true /\ wf_dc NV_TREE = true /\ crash_free_dc false NV_TREE = true
+  declared_dc NV_TREE = true /\ wf_dc NV_TREE = true
   /\ str_nodupb (map fst NV_TB) = true /\ no_abbrev NV_TB NV_ARGV ["c"] NV_TREE 2 = true /\ depth_dc NV_TREE = 2
   /\ parse_gen 2 NV_TB NV_ARGV ["c"] NV_TREE =
      Ok (V "Cfg" [("seed", 0%Z)]
@@ -214,6 +200,10 @@ Example C07_nonvacuous :
   /\ parse_gen 2 NV_TB [] ["c"] NV_TREE = Err (Exit 2)
   /\ parse_gen 2 NV_TB [("--model", "small"); ("--width", "3")] ["c"] NV_TREE = Err (Exit 2)
   /\ resolve_gen 1 NV_TB NV_ARGV ["c"] NV_TREE = Err OutOfFuel
+  (* the former crash witness: a frozen-instance entry whose class has a defaulted subgroup field *)
+  /\ parse_gen 2 [("--m", ["c"; "m"]); ("--inner", ["c"; "m"; "inner"])] [] ["c"] W_CRASH =
+     Ok (V "T" [] (VCons "m" (V "A" [("x", 7%Z)] (VCons "inner" (V "L" [("y", 2%Z)] VNil) VNil)) VNil),
+         [(["c"; "m"], "ia"); (["c"; "m"; "inner"], "i1")])
   /\ cmd_parse_gen "Par" [("x", 9%Z)] (mkcmd "cmd" [("alpha", ("Alpha", [("lr", 1%Z)])); ("beta", ("Beta", [("mom", 2%Z)]))] None)
                    [("--x", "x")] [("alpha", [("--lr", "lr")]); ("beta", [("--mom", "mom")])]
                    [("--x", "4")] (Some "beta") [("--mom", "5")]
